@@ -7,14 +7,12 @@ tables / block times) from an arbitrary initial configuration — `Reachable`.
 
 Sub-claims the code (and therefore the model) does NOT satisfy are refuted on concrete witnesses:
  * `payout_wrong_receiver_witness`  (an owner with locks naming different receivers: all go to the first lock's receiver),
- * `finishes_without_paying_witness` (a gauge without a qualifying lock in its last epoch finishes with unpaid epochs),
- * `spam_rule_skips_payout_witness`  (a gauge whose remainder is one coin of ≤ 100 units pays nothing, whatever the minimum),
- * `zero_converted_minimum_skips_later_locks_witness`, `zero_converted_minimum_starves_later_gauge_witness` (a reward denom
-   whose converted minimum is 0: the zero is also the cache's "no route" sentinel, so only the first lock that meets the
-   denom in the epoch is paid; `zero_quote_pays_first_lock_only` shows this for every input),
- * `failing_minimum_quote_blocks_every_gauge_witness` (a route whose pool cannot quote the minimum fails the whole hook),
- * `topup_accepted_by_finished_gauge_witness` (a gauge of the finished store with unpaid epochs accepts deposits it never pays).
-The positive counterpart: `min_value_filter`, `lock_payout_exact_of_nonzero_quote`, `epoch_pays_clause_of_no_zero_quote`.
+ * `spam_rule_skips_payout_witness`  (a gauge whose remainder is one coin of ≤ 100 units pays nothing, whatever the minimum).
+Since the repository fixes af3cbe6371 / d4c28ad126 / 21bb9c1bc7 three former refutations are theorems of the opposite:
+`min_value_filter` + `epoch_pays_clause` (the minimum-value check, cache or not, IS the property's clause; in particular
+`zero_quote_pays_every_qualifying_lock` and `failing_quote_skips_only_that_denom`), `finishes_after_exactly_n_paying_epochs`
+(FULL: a finished gauge has `filled = numEpochs`, a gauge without qualifying lock never finishes) and
+`finished_gauge_rejects_topup`.
 Out of scope (not modelled, not generated): NoLock/CL gauges, group gauges, synthetic denoms.
 -/
 import OsmoVerif.Proofs.IncentivesMinValue
@@ -59,13 +57,13 @@ gauge denom, duration ≥ gauge duration, unlocking or not) gets one queue entry
 (owner when unset) holding, per reward denom, exactly `owedToLock` — the floor of remaining·lockAmt/(lockSum·e)
 unless filtered — and no entry at all when every denom is filtered; the FIRST lock is filtered with the cache as the
 gauge found it (`minFilter m`), every later lock with the cache after the first lock (`minFilter (m.after remain)`);
-the gauge's newly distributed total is the sum of these entries.  What the two filters are: `min_value_filter`. -/
+the gauge's newly distributed total is the sum of these entries.  Both filters are the property's clause: `min_value_filter`. -/
 theorem epoch_payout_formula {m : MinVal} {locks : List Lock} {g : Gauge} {total : Coins} {pays : List Pay}
     (hg : GInv g) (h : distributeGauge m locks g = some (some (total, pays))) :
     ∃ remain e, subCoins g.coins g.distributed = some remain ∧ (∀ d, amountOf remain d = rem g d) ∧
       remainEpochs g = some e ∧ e = (if g.perpetual then 1 else (g.numEpochs : Int) - (g.filled : Int)) ∧ 1 ≤ e ∧
       (((remain.isEmpty = true ∨ isSpam remain = true) ∧ total = [] ∧ pays = []) ∨
-       (remain.isEmpty = false ∧ isSpam remain = false ∧ 0 < lockSum (gaugeLocks g locks) ∧ m.fails remain = false ∧
+       (remain.isEmpty = false ∧ isSpam remain = false ∧ 0 < lockSum (gaugeLocks g locks) ∧
         pays = ((gaugeLocks g locks).take 1).filterMap (payOf (minFilter m) remain (lockSum (gaugeLocks g locks) * e)) ++
                ((gaugeLocks g locks).drop 1).filterMap (payOf (minFilter (m.after remain)) remain (lockSum (gaugeLocks g locks) * e)) ∧
         total = sumPays pays ∧
@@ -83,9 +81,9 @@ theorem epoch_payout_formula {m : MinVal} {locks : List Lock} {g : Gauge} {total
       · cases he; rw [if_neg hp]
       · cases he
   refine ⟨remain, e, hrem, hra', he, hee, remainEpochs_pos he, ?_⟩
-  rcases hcase with hskip | ⟨h1, h2, hS, hf, hp, ht⟩
+  rcases hcase with hskip | ⟨h1, h2, hS, hp, ht⟩
   · exact Or.inl hskip
-  · refine Or.inr ⟨h1, h2, hS, hf, by rw [hp, lockPays_eq_filterMap], ht, fun f l d => ?_⟩
+  · refine Or.inr ⟨h1, h2, hS, by rw [hp, lockPays_eq_filterMap], ht, fun f l d => ?_⟩
     rw [lockCoins_amount f hrv, hra' d]
     have hR : 0 ≤ rem g d := by have := hg.le d; unfold rem; omega
     have hsh : share (rem g d) l.amount (lockSum (gaugeLocks g locks) * e) =
@@ -147,29 +145,29 @@ theorem epoch_receipts {s s' : State} {now : Int} {thr : Quotes} {locks : List L
 
 /-! ## the minimum-value filter ("skipping only amounts worth less than the configured minimum, or not valuable at all") -/
 
-/-- **what the filter decides**, for every cache state `m` a `Distribute` call can be in (`CacheOK`: cached values
-are the call's own quotes): for the minimum-value denom itself and for every denom whose converted minimum `v` is
-NOT zero, an amount passes iff `v ≤ amount` — the property's clause; a denom without route (or whose quote fails)
-never passes; a non-base denom whose converted minimum IS zero passes only while it is not cached. -/
-theorem min_value_filter {m : MinVal} (hc : CacheOK m) (d : Denom) (a : Int) :
-    (∀ v, assoc m.quotes d = some (some v) → (d = Gen.Incentives.BaseCoinUnit ∨ v ≠ 0) → minFilter m d a = decide (v ≤ a)) ∧
-    ((assoc m.quotes d = none ∨ assoc m.quotes d = some none) → minFilter m d a = false) ∧
-    (d ≠ Gen.Incentives.BaseCoinUnit → assoc m.quotes d = some (some 0) →
-      minFilter m d a = ((assoc m.cache d).isNone && decide (0 ≤ a))) :=
-  ⟨fun _ hq hv => minFilter_clause hc hq hv a, fun hq => minFilter_no_value hc hq a, fun hb hq => minFilter_zero_quote hc hb hq a⟩
+/-- **the minimum-value check IS the property's clause**, for every cache state `m` a `Distribute` call can be in
+(`CacheOK`: cached values are what the call's own cache misses store) and non-negative quotes (they are coin
+amounts): an amount of denom `d` passes iff `d` has a route whose pool quotes the configured minimum (`v`, possibly
+zero) and `v ≤ amount`; no route, or a pool that cannot quote: never ("not valuable at all"). -/
+theorem min_value_filter {m : MinVal} (hc : CacheOK m) (hn : QuotesNonneg m.quotes) (d : Denom) (a : Int) :
+    minFilter m d a = worthMinimum m.quotes d a ∧
+    (∀ v, assoc m.quotes d = some (some v) → minFilter m d a = decide (v ≤ a)) ∧
+    ((assoc m.quotes d = none ∨ assoc m.quotes d = some none) → minFilter m d a = false) := by
+  have h := congrFun (congrFun (minFilter_eq_worthMinimum hc hn) d) a
+  refine ⟨h, fun v hq => ?_, fun hq => ?_⟩
+  · rw [h]; unfold worthMinimum; rw [hq]
+  · rw [h]; unfold worthMinimum; rcases hq with hq | hq <;> rw [hq]
 
-/-- **payouts of a denom whose converted minimum is not zero are exactly the floor shares worth the minimum**: for
-a processed gauge (any consistent cache state, whatever the OTHER denoms are quoted at) every lock — the first one
-and the later ones — receives of denom `d` exactly ⌊remaining·lockAmt/(lockSum·e)⌋ when that is at least the
-converted minimum `v` (and positive), and nothing otherwise. -/
-theorem lock_payout_exact_of_nonzero_quote {m : MinVal} (hc : CacheOK m) {locks : List Lock} {g : Gauge} {total : Coins}
-    {pays : List Pay} (hg : GInv g) (h : distributeGauge m locks g = some (some (total, pays))) {d : Denom} {v : Int}
-    (hq : assoc m.quotes d = some (some v)) (hv : d = Gen.Incentives.BaseCoinUnit ∨ v ≠ 0) :
+/-- **payouts are exactly the floor shares worth the minimum**: for a processed gauge (any consistent cache state)
+every lock — the first one and the later ones — receives of every denom `d` exactly
+⌊remaining·lockAmt/(lockSum·e)⌋ when the clause admits it (and it is positive), and nothing otherwise. -/
+theorem lock_payout_exact {m : MinVal} (hc : CacheOK m) (hn : QuotesNonneg m.quotes) {locks : List Lock} {g : Gauge}
+    {total : Coins} {pays : List Pay} (hg : GInv g) (h : distributeGauge m locks g = some (some (total, pays))) (d : Denom) :
     ∃ remain e, subCoins g.coins g.distributed = some remain ∧ remainEpochs g = some e ∧ ∀ l : Lock,
       amountOf (lockCoins (minFilter m) remain (lockSum (gaugeLocks g locks) * e) l.amount) d =
-        owedToLock (fun _ a => decide (v ≤ a)) d (rem g d) l.amount (lockSum (gaugeLocks g locks)) e ∧
+        owedToLock (worthMinimum m.quotes) d (rem g d) l.amount (lockSum (gaugeLocks g locks)) e ∧
       amountOf (lockCoins (minFilter (m.after remain)) remain (lockSum (gaugeLocks g locks) * e) l.amount) d =
-        owedToLock (fun _ a => decide (v ≤ a)) d (rem g d) l.amount (lockSum (gaugeLocks g locks)) e := by
+        owedToLock (worthMinimum m.quotes) d (rem g d) l.amount (lockSum (gaugeLocks g locks)) e := by
   obtain ⟨remain, e, hrem, he, _, _⟩ := distributeGauge_written h
   obtain ⟨hrv, hra⟩ := subCoins_spec hg.vc hg.vd hrem
   refine ⟨remain, e, hrem, he, fun l => ?_⟩
@@ -180,65 +178,70 @@ theorem lock_payout_exact_of_nonzero_quote {m : MinVal} (hc : CacheOK m) {locks 
     rw [this]
     unfold share floorShare
     exact Int.tdiv_eq_ediv_of_nonneg (Int.mul_nonneg hR (Int.natCast_nonneg _))
-  have hc' := CacheOK_after hc remain
-  have hq' : assoc (m.after remain).quotes d = some (some v) := by rw [MinVal.after_quotes]; exact hq
+  have h1 := minFilter_eq_worthMinimum hc hn
+  have h2 : minFilter (m.after remain) = worthMinimum m.quotes := by
+    have := minFilter_eq_worthMinimum (CacheOK_after hc remain) (by rw [MinVal.after_quotes]; exact hn)
+    rw [MinVal.after_quotes] at this; exact this
   constructor
-  · rw [lockCoins_amount _ hrv, hsh, minFilter_clause hc hq hv]; rfl
-  · rw [lockCoins_amount _ hrv, hsh, minFilter_clause hc' hq' hv]; rfl
+  · rw [lockCoins_amount _ hrv, hsh, h1]; rfl
+  · rw [lockCoins_amount _ hrv, hsh, h2]; rfl
 
-/-- THE QUIRK for every input: a non-base remaining denom whose converted minimum is ZERO is paid to NO lock after
-the gauge's first one (and, the cache being shared, to no lock of any later gauge of the epoch: `min_value_filter`). -/
-theorem zero_quote_pays_first_lock_only {m : MinVal} (hc : CacheOK m) {remain : Coins} (hrv : validCoins remain = true)
-    {d : Denom} (hb : d ≠ Gen.Incentives.BaseCoinUnit) (hq : assoc m.quotes d = some (some 0))
-    (hm : d ∈ remain.map (·.1)) (den : Int) (l : Lock) :
-    amountOf (lockCoins (minFilter (m.after remain)) remain den l.amount) d = 0 := by
-  rw [lockCoins_amount _ hrv, minFilter_after_zero_quote hc remain hb hq hm]; rfl
+/-- **a converted minimum of ZERO pays every qualifying lock** (formerly only the first one, F61): with the quote
+`0` for denom `d` every lock of a processed gauge — first or later, whatever was cached before — receives its whole
+floor share of `d` (nothing only when that floor is 0). -/
+theorem zero_quote_pays_every_qualifying_lock {m : MinVal} (hc : CacheOK m) (hn : QuotesNonneg m.quotes) {locks : List Lock}
+    {g : Gauge} {total : Coins} {pays : List Pay} (hg : GInv g) (h : distributeGauge m locks g = some (some (total, pays)))
+    {d : Denom} (hq : assoc m.quotes d = some (some 0)) :
+    ∃ remain e, subCoins g.coins g.distributed = some remain ∧ remainEpochs g = some e ∧ ∀ l : Lock,
+      amountOf (lockCoins (minFilter m) remain (lockSum (gaugeLocks g locks) * e) l.amount) d =
+        floorShare (rem g d) l.amount (lockSum (gaugeLocks g locks)) e ∧
+      amountOf (lockCoins (minFilter (m.after remain)) remain (lockSum (gaugeLocks g locks) * e) l.amount) d =
+        floorShare (rem g d) l.amount (lockSum (gaugeLocks g locks)) e := by
+  obtain ⟨remain, e, hrem, he, hl⟩ := lock_payout_exact hc hn hg h d
+  have hpos := remainEpochs_pos he
+  refine ⟨remain, e, hrem, he, fun l => ?_⟩
+  have hR : 0 ≤ rem g d := by have := hg.le d; unfold rem; omega
+  have hfs : 0 ≤ floorShare (rem g d) l.amount (lockSum (gaugeLocks g locks)) e := by
+    unfold floorShare
+    have hS := lockSum_nonneg (gaugeLocks g locks)
+    exact Int.ediv_nonneg (Int.mul_nonneg hR (Int.natCast_nonneg _)) (Int.mul_nonneg hS (by omega))
+  have key : owedToLock (worthMinimum m.quotes) d (rem g d) l.amount (lockSum (gaugeLocks g locks)) e =
+      floorShare (rem g d) l.amount (lockSum (gaugeLocks g locks)) e := by
+    unfold owedToLock worthMinimum
+    rw [hq]
+    simp only [decide_eq_true_eq.mpr hfs, Bool.true_and]
+    split
+    · rfl
+    · rename_i hh; simp only [decide_eq_true_eq] at hh; omega
+  rw [(hl l).1, (hl l).2, key]
+  exact ⟨rfl, rfl⟩
 
-/-- **an epoch pays exactly the property's clause when no converted minimum is zero**: the send queue is the fold,
-over the active gauges in order and their qualifying locks in order, of the floor shares that are worth the
-configured minimum converted through the route's quote (`worthMinimum`: no route ⇒ nothing), cache or not. -/
-theorem epoch_pays_clause_of_no_zero_quote {s s' : State} {now : Int} {q : Quotes} {locks : List Lock} {info : Info}
-    (hr : Reachable s) (h : epoch s now q locks = some (s', info)) (hz : NoZeroQuote q) :
+/-- **a pool that cannot quote the minimum costs only that denom** (formerly the whole epoch hook failed, F62): the
+denom whose quote fails is never paid in this distribution, every other denom is filtered by its own quote
+(`min_value_filter`), and `distributeGauge` does not fail because of any quote — it fails only on a broken record. -/
+theorem failing_quote_skips_only_that_denom {m : MinVal} (hc : CacheOK m) (hn : QuotesNonneg m.quotes) {d : Denom}
+    (hf : assoc m.quotes d = some none) :
+    (∀ a, minFilter m d a = false) ∧
+    (∀ d' a, d' ≠ d → ∀ q' : Quotes, (∀ x, x ≠ d → assoc q' x = assoc m.quotes x) →
+        minFilter m d' a = worthMinimum q' d' a) ∧
+    (∀ locks g, distributeGauge m locks g = none ↔ subCoins g.coins g.distributed = none ∨ remainEpochs g = none) := by
+  refine ⟨fun a => (min_value_filter hc hn d a).2.2 (Or.inr hf), fun d' a hne q' hq' => ?_, fun locks g => distributeGauge_none_iff m locks g⟩
+  rw [(min_value_filter hc hn d' a).1]
+  unfold worthMinimum
+  rw [hq' d' hne]
+
+/-- **an epoch pays exactly the property's clause**: the send queue is the fold, over the active gauges in order and
+their qualifying locks in order, of the floor shares that are worth the configured minimum converted through the
+route's quote (`worthMinimum`: no route or no quote ⇒ nothing; a zero quote ⇒ everything positive), cache or not. -/
+theorem epoch_pays_clause {s s' : State} {now : Int} {q : Quotes} {locks : List Lock} {info : Info}
+    (hr : Reachable s) (h : epoch s now q locks = some (s', info)) (hn : QuotesNonneg q) :
     ∃ snap : List Gauge, (∀ g ∈ snap, g ∈ s.gauges) ∧ (snap.map (·.id)).Nodup ∧
       (∀ i, i ∈ snap.map (·.id) ↔ i ∈ refsIds s.active ∨
           (i ∈ refsIds s.upcoming ∧ i ∉ refsIds (s.upcoming.filter (fun kv => decide (now < kv.1))))) ∧
       info = (snap.flatMap (clausePays (worthMinimum q) locks)).foldl addLockRewards [] := by
   obtain ⟨snap, k1, k2, k3, h3⟩ := epoch_snapshot hr h
   refine ⟨snap, k1, k2, k3, ?_⟩
-  rw [distributeLoop_info h3, snapPays_eq_clausePays (CacheOK_empty q) hz h3]
-
-/-- REFUTED sub-claim (skipping "only amounts worth less than the configured minimum"): the minimum 10000uosmo
-converts to 0rewx (one rewx is worth more); three locks of 100 each, gauge 3000rewx: the clause owes 1000 each, the
-code pays the first lock (cache miss: `0 ≤ 1000`) and skips the two others (cache hit: the cached 0 reads "no route"). -/
-theorem zero_converted_minimum_skips_later_locks_witness :
-    let s0 := run (init ⟨[3600], ["lp"], ["rewx"]⟩ []) [.create true "lp" 3600 [("rewx", 3000)] 0 1]
-    let q : Quotes := [("rewx", some 0), ("uosmo", some 10000)]
-    let locks : List Lock := [⟨1, 0, none, 3600, "lp", 100, false⟩, ⟨2, 1, none, 3600, "lp", 100, false⟩, ⟨3, 2, none, 3600, "lp", 100, false⟩]
-    (epoch s0 10 q locks).map (fun r => received r.2) = some [(0, [("rewx", 1000)])] ∧
-    (s0.gauges.flatMap (clausePays (worthMinimum q) locks)).map (fun p => (p.receiver, p.coins)) =
-      [(0, [("rewx", 1000)]), (1, [("rewx", 1000)]), (2, [("rewx", 1000)])] := by decide +kernel
-
-set_option synthInstance.maxSize 1024 in
-/-- the cache is shared by the gauges of one `Distribute`: the first gauge's only lock is paid, the second gauge
-(other lock denom, two locks) pays NOBODY — and still counts the epoch as one of its two. -/
-theorem zero_converted_minimum_starves_later_gauge_witness :
-    (epoch (run (init ⟨[3600], ["lpa", "lpb"], ["rewx"]⟩ [])
-        [.create true "lpa" 3600 [("rewx", 3000)] 0 1, .create false "lpb" 3600 [("rewx", 4000)] 0 2])
-      10 [("rewx", some 0), ("uosmo", some 10000)]
-      [⟨1, 0, none, 3600, "lpa", 100, false⟩, ⟨2, 1, none, 3600, "lpb", 100, false⟩, ⟨3, 2, none, 3600, "lpb", 100, false⟩]).map
-      (fun r => (received r.2, r.1.gauges.map (fun g => (g.filled, g.distributed)))) =
-    some ([(0, [("rewx", 3000)])], [(1, [("rewx", 3000)]), (1, [])]) := by decide +kernel
-
-/-- REFUTED sub-claim (every active gauge pays at the epoch): the pool behind rewx's route cannot quote the minimum
-(a balancer pool returns an error for an output of 0): the whole hook fails — also for the unrelated uosmo gauge —
-and the state stays as it was (`failed_op_noop`), epoch after epoch. -/
-theorem failing_minimum_quote_blocks_every_gauge_witness :
-    let s0 := run (init ⟨[3600], ["lpa", "lpb"], ["rewx"]⟩ [])
-        [.create true "lpa" 3600 [("rewx", 3000)] 0 1, .create true "lpb" 3600 [("uosmo", 5000000)] 0 1]
-    let locks : List Lock := [⟨1, 0, none, 3600, "lpa", 100, false⟩, ⟨2, 1, none, 3600, "lpb", 100, false⟩]
-    epoch s0 10 [("rewx", none), ("uosmo", some 10000)] locks = none ∧
-    (epoch s0 10 [("uosmo", some 10000)] locks).map (fun r => received r.2) = some [(1, [("uosmo", 5000000)])] := by
-  decide +kernel
+  rw [distributeLoop_info h3, snapPays_eq_clausePays (CacheOK_empty q) hn]
 
 /-- REFUTED sub-claim ("to the lock's reward receiver"): one owner, two qualifying locks, the second naming
 address 7 as its reward receiver — the whole 1000 goes to the owner (address 0), address 7 gets nothing
@@ -416,37 +419,38 @@ theorem finished_forever {s : State} (hr : Reachable s) {id : Nat} {D : Coins} {
         exact ⟨by rw [← hid]; exact k2, g, k1, hid, hD, hF⟩
 
 /-- in every reachable state: upcoming gauges have paid nothing, active non-perpetual gauges still have epochs
-to pay (`filled < numEpochs`), finished gauges are non-perpetual with `numEpochs − 1 ≤ filled ≤ numEpochs`, and
-perpetual gauges are never finished. -/
+to pay (`filled < numEpochs`), finished gauges are non-perpetual with ALL their epochs filled
+(`filled = numEpochs`), and perpetual gauges are never finished. -/
 theorem schedule_bounds {s : State} (hr : Reachable s) {g : Gauge} (hg : g ∈ s.gauges) :
     (g.id ∈ refsIds s.upcoming → g.filled = 0 ∧ g.distributed = []) ∧
     (g.id ∈ refsIds s.active → g.perpetual = true ∨ g.filled < g.numEpochs) ∧
-    (g.id ∈ refsIds s.finished → g.perpetual = false ∧ g.numEpochs ≤ g.filled + 1 ∧ g.filled ≤ g.numEpochs) :=
+    (g.id ∈ refsIds s.finished → g.perpetual = false ∧ g.filled = g.numEpochs) :=
   let hs := (reachable_inv hr).2
   ⟨hs.up g hg, hs.act g hg, hs.fin g hg⟩
 
-/-- PARTIAL form of "non-perpetual gauges finish after exactly their number of paying epochs".
-Proved, for every reachable state and every successful epoch, for a non-perpetual gauge `g` that is active in
-this epoch (already active, or upcoming with `start ≤ now`):
- (1) it moves to the finished store in THIS epoch iff `filled + 1 = numEpochs`, i.e. exactly in the epoch that
-     is its `numEpochs`-th counted one, and otherwise stays active;
- (2) its filled-epoch counter grows by one iff it has a qualifying lock (non-zero lock sum) — these are its
-     paying (or spam-skipped) epochs — and the record is otherwise untouched;
- (3) (`schedule_bounds`) a finished gauge has `numEpochs − 1 ≤ filled ≤ numEpochs`.
-FULL statement `finished → filled = numEpochs` (every counted epoch was a processed one) is FALSE for the code:
-`checkFinishDistribution` tests the pre-distribution snapshot with `filled + 1`, assuming the epoch was counted,
-also when `distributeInternal` returned early for lack of locks — see `finishes_without_paying_witness`.
-With a qualifying lock in that last epoch (2) gives `filled = numEpochs` on finishing. -/
-theorem finishes_after_exactly_n_paying_epochs_partial {s s' : State} {now : Int} {thr : Quotes} {locks : List Lock}
+/-- **non-perpetual gauges finish after exactly their number of paying epochs** (FULL since fix 21bb9c1bc7).
+For every reachable state and every successful epoch, for a non-perpetual gauge `g` that is active in this epoch
+(already active, or upcoming with `start ≤ now`):
+ (1) it moves to the finished store in THIS epoch iff this epoch advanced its record (`postDistribute`) and that
+     was its `numEpochs`-th counted epoch; otherwise (2) it stays active;
+ (3) its filled-epoch counter grows by one when it has a qualifying lock (non-zero lock sum) — its paying (or
+     spam-skipped) epochs — and (4) without a qualifying lock the record is untouched and (5) it does NOT finish;
+ (6) (`schedule_bounds`) every finished gauge has `filled = numEpochs`.
+So `filled` counts exactly the epochs with a qualifying lock, and the gauge finishes in the epoch in which that count
+reaches `numEpochs`, not earlier and not later. -/
+theorem finishes_after_exactly_n_paying_epochs {s s' : State} {now : Int} {thr : Quotes} {locks : List Lock}
     {info : Info} (hr : Reachable s) (h : epoch s now thr locks = some (s', info)) {g : Gauge} (hg : g ∈ s.gauges)
     (hnp : g.perpetual = false)
     (hact : g.id ∈ refsIds s.active ∨ (g.id ∈ refsIds s.upcoming ∧ g.start ≤ now)) :
-    (g.id ∈ refsIds s'.finished ↔ g.filled + 1 = g.numEpochs) ∧
-    (g.filled + 1 ≠ g.numEpochs → g.id ∈ refsIds s'.active) ∧
+    (g.id ∈ refsIds s'.finished ↔ (∃ total, g.postDistribute total ∈ s'.gauges) ∧ g.filled + 1 = g.numEpochs) ∧
+    (g.id ∉ refsIds s'.finished → g.id ∈ refsIds s'.active) ∧
     ((gaugeLocks g locks).isEmpty = false → lockSum (gaugeLocks g locks) ≠ 0 →
         ∃ total, g.postDistribute total ∈ s'.gauges ∧ (g.postDistribute total).filled = g.filled + 1) ∧
-    ((gaugeLocks g locks).isEmpty = true → g ∈ s'.gauges) := by
+    ((gaugeLocks g locks).isEmpty = true → g ∈ s'.gauges) ∧
+    ((gaugeLocks g locks).isEmpty = true → g.id ∉ refsIds s'.finished) ∧
+    (∀ x ∈ s'.gauges, x.id ∈ refsIds s'.finished → x.filled = x.numEpochs) := by
   obtain ⟨hi, hs⟩ := reachable_inv hr
+  have hs' : SInv s' := SInv_epoch hi hs h
   have hact' := (activation_at_start hr h hg)
   obtain ⟨up, act, snap, store, bal, act', fin, h1, h2, h3, h4, h5, rfl⟩ := epoch_unfold h
   have F := epochFacts hi h1 h2 h5
@@ -471,35 +475,45 @@ theorem finishes_after_exactly_n_paying_epochs_partial {s s' : State} {now : Int
     · rcases hs.act g hg ha with hp | hp
       · rw [hnp] at hp; cases hp
       · exact hp
-  have hFiff : g.id ∈ (snap.filter finishing).map (·.id) ↔ g.filled + 1 = g.numEpochs := by
+  obtain ⟨j1, _, _, _⟩ := distributeLoop_spec h3 hi.ids F.snapNodup F.snapMem hi.g (fun _ he => absurd he List.not_mem_nil)
+  have hstn : (store.map (·.id)).Nodup := by rw [j1]; exact hi.ids
+  obtain ⟨m, _, _, hne, hres1, hres2⟩ := distributeLoop_result h3 F.snapMem F.snapNodup hgs
+  -- the record stored under g's id after the loop decides
+  have hFiff : g.id ∈ (snap.filter (finishing store)).map (·.id) ↔
+      (∃ total, g.postDistribute total ∈ store) ∧ g.filled + 1 = g.numEpochs := by
     rw [mem_finishing_ids]
     constructor
     · rintro ⟨g', hg', hfin, he⟩
       have : g' = g := eq_of_id_eq hi.ids (F.snapMem g' hg') hg he
       subst this
-      have := ((finishing_iff g').mp hfin).2
-      omega
-    · intro he
-      exact ⟨g, hgs, (finishing_iff g).mpr ⟨hnp, by omega⟩, rfl⟩
-  obtain ⟨m, _, _, hne, hres1, hres2⟩ := distributeLoop_result h3 F.snapMem F.snapNodup hgs
-  refine ⟨?_, ?_, ?_, ?_⟩
-  · rw [F.finIff, hFiff]
+      obtain ⟨_, hle, u, hu, hule⟩ := (finishing_iff store g').mp hfin
+      cases hd : distributeGauge m locks g' with
+      | none => exact absurd hd hne
+      | some r =>
+        cases r with
+        | none =>
+          have hm := hres2 hd
+          have := getGauge_of_mem hstn hm
+          rw [hu] at this
+          have : u = g' := Option.some.inj this
+          subst this; omega
+        | some tp =>
+          obtain ⟨total, pays⟩ := tp
+          have hm := hres1 total pays hd
+          exact ⟨⟨total, hm⟩, by omega⟩
+    · rintro ⟨⟨total, hm⟩, he⟩
+      refine ⟨g, hgs, (finishing_iff store g).mpr ⟨hnp, by omega, g.postDistribute total, ?_, ?_⟩, rfl⟩
+      · exact getGauge_of_mem hstn hm
+      · show g.numEpochs ≤ g.filled + 1; omega
+  have hfinIff : g.id ∈ refsIds fin ↔ (∃ total, g.postDistribute total ∈ store) ∧ g.filled + 1 = g.numEpochs := by
+    rw [F.finIff, hFiff]
     constructor
     · rintro (h' | h')
       · exact h'
       · exact absurd h' (F.actNotFin _ hga)
     · exact Or.inl
-  · intro hne
-    rcases F.actSplit _ hga with h' | h'
-    · exact absurd (hFiff.mp h') hne
-    · exact h'
-  · intro hl hS
-    cases hd : distributeGauge m locks g with
-    | none => exact absurd hd hne
-    | some r =>
-      obtain ⟨total, pays, rfl⟩ := distributeGauge_writes hd hl hS
-      exact ⟨total, hres1 total pays hd, rfl⟩
-  · intro hl
+  have huntouched : (gaugeLocks g locks).isEmpty = true → g ∈ store := by
+    intro hl
     cases hd : distributeGauge m locks g with
     | none => exact absurd hd hne
     | some r =>
@@ -509,28 +523,41 @@ theorem finishes_after_exactly_n_paying_epochs_partial {s s' : State} {now : Int
         obtain ⟨total, pays⟩ := tp
         obtain ⟨_, _, _, _, hne, _⟩ := distributeGauge_written hd
         rw [hl] at hne; cases hne
+  refine ⟨hfinIff, ?_, ?_, huntouched, ?_, fun x hx hxf => (hs'.fin x hx hxf).2⟩
+  · intro hnf
+    rcases F.actSplit _ hga with h' | h'
+    · exact absurd ((F.finIff _).mpr (Or.inl h')) hnf
+    · exact h'
+  · intro hl hS
+    cases hd : distributeGauge m locks g with
+    | none => exact absurd hd hne
+    | some r =>
+      obtain ⟨total, pays, rfl⟩ := distributeGauge_writes hd hl hS
+      exact ⟨total, hres1 total pays hd, rfl⟩
+  · intro hl hf
+    obtain ⟨⟨total, hm⟩, _⟩ := hfinIff.mp hf
+    have hg' := huntouched hl
+    have e1 := getGauge_of_mem hstn hm
+    have e2 := getGauge_of_mem hstn hg'
+    have : (g.postDistribute total).id = g.id := rfl
+    rw [this, e2] at e1
+    have := congrArg Gauge.filled (Option.some.inj e1)
+    simp [Gauge.postDistribute] at this
 
-/-- REFUTED full claim: a 2-epoch gauge pays in its first epoch, has NO qualifying lock in the second one, and
-is moved to the finished store with `filled = 1 < numEpochs = 2` and 500 of its 1000 uosmo undistributed. -/
-theorem finishes_without_paying_witness :
+set_option synthInstance.maxSize 4096 in
+/-- the history that used to finish a gauge with an unpaid epoch (F20): a 2-epoch gauge pays in its first epoch,
+has NO qualifying lock in the second one — and now STAYS ACTIVE with `filled = 1`; a later epoch with a lock pays
+the remaining 500 (plus a top-up of 777 accepted meanwhile) and only then the gauge finishes, `filled = 2`,
+everything distributed, nothing left in the module account. -/
+example :
     let s1 := run (init ⟨[3600], ["lp"], []⟩ []) [.create false "lp" 3600 [("uosmo", 1000)] 0 2,
                 .epoch 10 [("uosmo", some 1)] [⟨1, 0, none, 3600, "lp", 100, false⟩], .epoch 20 [("uosmo", some 1)] []]
-    (refsIds s1.finished, s1.gauges.map (fun g => (g.numEpochs, g.filled, g.distributed))) = ([1], [(2, 1, [("uosmo", 500)])]) := by
-  decide +kernel
-
-set_option synthInstance.maxSize 2048 in
-/-- REFUTED consequence (a deposit can be paid out): the gauge of `finishes_without_paying_witness` sits in the
-finished store with `filled = 1 < 2`; `Gauge.IsFinishedGauge` looks at the FIELDS, so `AddToGaugeRewards` accepts
-777 more uosmo; a later epoch with a qualifying lock pays nothing (`finished_forever`): 1277 uosmo stay in the module
-account for good. -/
-theorem topup_accepted_by_finished_gauge_witness :
-    let s1 := run (init ⟨[3600], ["lp"], []⟩ []) [.create false "lp" 3600 [("uosmo", 1000)] 0 2,
-                .epoch 10 [("uosmo", some 1)] [⟨1, 0, none, 3600, "lp", 100, false⟩], .epoch 20 [("uosmo", some 1)] []]
-    refsIds s1.finished = [1] ∧
-    ((addToGauge s1 1 [("uosmo", 777)] 25).bind (fun s2 =>
-        (epoch s2 30 [("uosmo", some 1)] [⟨2, 1, none, 3600, "lp", 100, false⟩]).map
-          (fun r => (received r.2, r.1.gauges.map (fun g => (g.coins, g.distributed)), r.1.balance)))) =
-      some ([], [([("uosmo", 1777)], [("uosmo", 500)])], [("uosmo", 1277)]) := by
+    let s2 := run s1 [.add 1 [("uosmo", 777)] 25, .epoch 30 [("uosmo", some 1)] [⟨2, 1, none, 3600, "lp", 100, false⟩]]
+    (refsIds s1.active, refsIds s1.finished, s1.gauges.map (fun g => (g.numEpochs, g.filled, g.distributed))) =
+      ([1], [], [(2, 1, [("uosmo", 500)])]) ∧
+    (refsIds s2.active, refsIds s2.finished, s2.gauges.map (fun g => (g.filled, g.coins, g.distributed)), s2.balance) =
+      ([], [1], [(2, [("uosmo", 1777)], [("uosmo", 1777)])], []) ∧
+    (addToGauge s2 1 [("uosmo", 5)] 35).isNone = true := by
   decide +kernel
 
 /-! ## failed operations -/
@@ -562,6 +589,19 @@ theorem addToGauge_rejects (s : State) (id : Nat) (c : Coins) (now : Int)
     · rw [h]
     · rw [hg]; simp [hf]
 
+/-- **a finished gauge rejects every deposit** (formerly a gauge that had finished with an unpaid epoch accepted
+deposits it could never pay out, F63): in every reachable state `AddToGaugeRewards` fails for a gauge of the
+finished store, at every block time not before the gauge's start (block times do not run backwards, and a gauge is
+activated only at a block time ≥ its start). -/
+theorem finished_gauge_rejects_topup {s : State} (hr : Reachable s) {g : Gauge} (hg : g ∈ s.gauges)
+    (hf : g.id ∈ refsIds s.finished) (c : Coins) {now : Int} (hnow : g.start ≤ now) :
+    addToGauge s g.id c now = none := by
+  obtain ⟨hi, hs⟩ := reachable_inv hr
+  obtain ⟨hnp, hfl⟩ := hs.fin g hg hf
+  refine addToGauge_rejects s g.id c now (Or.inr ⟨g, getGauge_of_mem hi.ids hg, ?_⟩)
+  unfold Gauge.isFinishedAt
+  simp [hnow, hnp, hfl]
+
 /-! ## non-vacuity -/
 
 set_option synthInstance.maxSize 1024 in
@@ -575,6 +615,38 @@ example :
       (fun r => (received r.2, r.1.gauges.map (fun g => (g.filled, g.distributed)), refsIds r.1.active, r.1.balance))
     = some ([(0, [("rewa", 66), ("uosmo", 200)]), (3, [("rewa", 266), ("uosmo", 1300)])],
             [(1, [("rewa", 332), ("uosmo", 1000)]), (1, [("uosmo", 500)])], [2, 1], [("rewa", 668), ("uosmo", 2000)]) := by
+  decide +kernel
+
+/-- the history of the former finding F61: the minimum 10000uosmo converts to 0rewx; three locks of 100 each, gauge
+3000rewx: every lock is paid its 1000 — what the property's clause says — also across two gauges sharing the cache. -/
+example :
+    let s0 := run (init ⟨[3600], ["lp"], ["rewx"]⟩ []) [.create true "lp" 3600 [("rewx", 3000)] 0 1]
+    let q : Quotes := [("rewx", some 0), ("uosmo", some 10000)]
+    let locks : List Lock := [⟨1, 0, none, 3600, "lp", 100, false⟩, ⟨2, 1, none, 3600, "lp", 100, false⟩, ⟨3, 2, none, 3600, "lp", 100, false⟩]
+    (epoch s0 10 q locks).map (fun r => received r.2) =
+      some [(0, [("rewx", 1000)]), (1, [("rewx", 1000)]), (2, [("rewx", 1000)])] ∧
+    (s0.gauges.flatMap (clausePays (worthMinimum q) locks)).map (fun p => (p.receiver, p.coins)) =
+      [(0, [("rewx", 1000)]), (1, [("rewx", 1000)]), (2, [("rewx", 1000)])] := by decide +kernel
+
+set_option synthInstance.maxSize 1024 in
+example :
+    (epoch (run (init ⟨[3600], ["lpa", "lpb"], ["rewx"]⟩ [])
+        [.create true "lpa" 3600 [("rewx", 3000)] 0 1, .create false "lpb" 3600 [("rewx", 4000)] 0 2])
+      10 [("rewx", some 0), ("uosmo", some 10000)]
+      [⟨1, 0, none, 3600, "lpa", 100, false⟩, ⟨2, 1, none, 3600, "lpb", 100, false⟩, ⟨3, 2, none, 3600, "lpb", 100, false⟩]).map
+      (fun r => (received r.2, r.1.gauges.map (fun g => (g.filled, g.distributed)))) =
+    some ([(0, [("rewx", 3000)]), (1, [("rewx", 1000)]), (2, [("rewx", 1000)])], [(1, [("rewx", 3000)]), (1, [("rewx", 2000)])]) := by
+  decide +kernel
+
+set_option synthInstance.maxSize 2048 in
+/-- the history of the former finding F62: the pool behind rewx's route cannot quote the minimum: the hook succeeds,
+rewx is not paid in this epoch (the rewx gauge still counts it), the unrelated uosmo gauge pays. -/
+example :
+    let s0 := run (init ⟨[3600], ["lpa", "lpb"], ["rewx"]⟩ [])
+        [.create true "lpa" 3600 [("rewx", 3000)] 0 1, .create true "lpb" 3600 [("uosmo", 5000000)] 0 1]
+    let locks : List Lock := [⟨1, 0, none, 3600, "lpa", 100, false⟩, ⟨2, 1, none, 3600, "lpb", 100, false⟩]
+    (epoch s0 10 [("rewx", none), ("uosmo", some 10000)] locks).map (fun r => (received r.2, r.1.gauges.map (fun g => (g.filled, g.distributed)))) =
+      some ([(1, [("uosmo", 5000000)])], [(1, []), (1, [("uosmo", 5000000)])]) := by
   decide +kernel
 
 example : Reachable (run (init ⟨[3600], ["lp"], []⟩ [("uosmo", 7)]) [.create true "lp" 3600 [("uosmo", 1000)] 0 1]) :=
